@@ -33,6 +33,11 @@ CHECKS = {
         text="Norms.tla enumerates all matrices of shapes <= 2x2, 1x3, 3x1 (and 2x3, 3x2 thorough) over quaternions of integer modulus x scalings c in {1,-2,3}; TLC computes the 1-, inf- and squared Frobenius norms from the definitions and checks homogeneity, definiteness, transpose duality and cross-norm inequalities as invariants. Each state is replayed through matrix_norm (every ord spelling), the induced norms, all eleven Frobenius entry points and the spectral norm (vs complex-adjoint oracle); exact families U diag(s) V^H and Hermitian spectra with negative dominant eigenvalue pin the spectral norm. Random float matrices: triangle, sub-multiplicativity, homogeneity, 2<=F<=sqrt(rank)2, 2^2<=1*inf, entry-point agreement as integer margins bounded by TLC. Unknown ord values must raise.",
         note="Trusted: oracle singular values (numpy SVD of the complex adjoint), harness margins. Bounds: 4 ulp Frobenius, 256 units spectral/inequalities.",
         design_ref="5/C15"),
+    "C17": dict(
+        technique="exact integer model of the centred periodic blur and its operator matrix (Deblur.tla) replayed into blur / builders / restorations; DeblurTrace.tla recomputes recorded integer blurs and bounds float residuals",
+        text="Deblur.tla enumerates every image size <= 3x3 (quick) / 4x4 (thorough), every kernel size <= image, every single-tap kernel x every impulse (blurring is bilinear) plus asymmetric/even-size catalogue kernels; TLC computes the blurred image and the N x N operator from the definition and checks impulse->centred PSF, mass preservation and matrix = operator. Each state is replayed into apply_blur_fft (4 weighted/shifted channels), both matrix builders of the deblurring application (entry-for-entry equality with TLC's matrix), qslst_restore_fft (normal-equation residual with TLC's operator for four lambdas; lambda=0 inverts shifts) and qslst_restore_matrix (= FFT form). Random integer blurs/builders are recomputed by TLC; float blurs/restorations/linearity are bounded in units; PSF builders unit-sum/symmetric/centred.",
+        note="Trusted: oracle direct-sum convolution (cross-checked against TLC on the exact family), numpy linear algebra for residuals. Sizes <= 5x5.",
+        design_ref="5/C17"),
 }
 
 NOT_YET = "check not built yet in this round; see DESIGN.md section 5"
